@@ -1,5 +1,6 @@
 import Driver.Util
 import GrVerif.Model.Lz4
+import GrVerif.Spec.Lz4Ref
 namespace Driver.Lz4
 open GrVerif GrVerif.Lz4 Driver
 
@@ -30,6 +31,14 @@ def step (line : String) : String :=
        | .error _ => "fault"
        | .ok (r, out) => "ret=" ++ (match r with | some k => toString k | none => "-1") ++ " out=" ++ hexBytes out)
     | _, _, _ => "bad-op"
+  -- the reference decoder of the block format (`Spec/Lz4Ref.lean`, what `lz4_sound` is stated against): compared with liblz4 by the check
+  | ["lz4spec", h] =>
+    match parseHexUnits 2 h with
+    | some src =>
+      (match Lz4Ref.decompress src with
+       | none => "spec=-1"
+       | some r => "spec=" ++ toString r.length ++ " out=" ++ hexBytes r.toArray)
+    | none => "bad-op"
   | ["tbl", h, th, f] =>
     match parseHexUnits 2 h, parseHexNat th, parseHexNat f with
     | some t, some th, some f =>
